@@ -28,8 +28,10 @@ META = {
     "trusted": ["libcst 1.4.0 parser/codegen and CPython `ast` as observation instruments (argument sequences are read from their trees)",
                 "semgrep 1.90 as the detector of the end-to-end runs (which calls are selected is an input of the model)"],
     "assumptions": [
-        "the detector's verdict is an input: a call is modelled as selected iff the CodeTF report lists a change on its line "
-        "and the generator built it as a trigger (files where the two disagree are counted and skipped, never judged)",
+        "the detector's verdict is an input: a call is modelled as selected iff the CodeTF report lists a change on its line; where "
+        "that differs from the generator's intent the marks are taken from the report and the file is still judged (a changed but "
+        "unreported call is a violation); a report that cannot be attributed to calls, a transformer exception the model does not "
+        "predict, or a codemod with no judged selected call is a correspondence mismatch, never a silent skip",
         "name resolution (aliases), imports and dependencies are observed end to end only, not modelled",
     ],
 }
@@ -475,7 +477,12 @@ def kernel_direct(ctx, n, exhaustive=False):
         call = cst.parse_expression(src)
         e = cst_conv(call, tags)
         lst = [NewArg(*x) for x in info]
-        new_args = L.replace_args(_Dummy(), call, lst)
+        try:
+            new_args = L.replace_args(_Dummy(), call, lst)
+        except Exception as ex:   # the model is total: a raise is a model/implementation mismatch, not a harness error
+            ctx.mismatch("LibcstResultTransformer.replace_args vs Model.Args.replace_args",
+                         f"replace_args raised {type(ex).__name__}: {ex} on {src!r} with {info}", {"op": "replace_args", "call": src, "newargs": info})
+            continue
         obs = cst_conv(call.with_changes(args=new_args), tags)[3]
         left = [(x.name, parse_value(x.value, tags), x.add_if_missing) for x in lst]
         minfo = [(nm, parse_value(v, tags), a) for nm, v, a in info]
@@ -492,6 +499,14 @@ def kernel_direct(ctx, n, exhaustive=False):
         # add_arg_to_call / update_call_target / update_arg_target on the same call
         root = ("call", True, e[2], e[3])
         which = i % 3
+        try:
+            _probe = (L.add_arg_to_call(_Dummy(), call, "k9", "x") if which == 0 else
+                      L.update_call_target(_Dummy(), call, "a.b") if which == 1 else
+                      L.update_arg_target(_Dummy(), call, [cst.Integer("1")]))
+        except Exception as ex:
+            ctx.mismatch("LibcstResultTransformer kernel vs Model.Args", f"kernel call #{which} raised {type(ex).__name__}: {ex} on {src!r}",
+                         {"op": "direct", "call": src, "kind": ["HAddArg", "HTarget", "HLimitReadline"][which]})
+            continue
         if which == 0:
             name, val = rng.choice(["timeout", "content_type", "k9"]), rng.choice(["60", '"application/json"', "x.y"])
             out = L.add_arg_to_call(_Dummy(), call, name, val if val != "60" else 60)
@@ -590,9 +605,11 @@ def gen_trigger_tree(rng, codemod, depth, nest_p):
     return ("call", True, callee, args, rng.random() < 0.1)
 
 
-def classify_tree(codemod, e):
-    """finding class of a spec violation observed on input tree `e` (marks = selected calls)"""
-    if codemod == "harden-pyyaml":
+def classify_tree(codemod, e, as_written=False, nested_ok=False):
+    """finding class of a spec violation observed on input tree `e` (marks = selected calls).  A known class is given only
+    when the OBSERVED output is exactly the modelled deviation (`as_written`: output = code-as-written model; `nested_ok`:
+    Harness.C16_run.nested_class_ok); any other failure on the same input shape stays unclassified and is reported."""
+    if as_written and codemod == "harden-pyyaml":
         for c in calls_of(e):
             if c[1] and len(c[3]) > 2:
                 return KF_PYYAML_DROP
@@ -600,15 +617,12 @@ def classify_tree(codemod, e):
             if c[1] and len(c[3]) == 2 and (c[3][1][1] != 0 or c[3][1][0] not in (None, "Loader")
                                             or any(a[0] == "Loader" for a in c[3][:1])):
                 return KF_PYYAML_SECOND
-    if codemod == "upgrade-sslcontext-tls":
+    if as_written and codemod == "upgrade-sslcontext-tls" and not nested_selected(e):
         for c in calls_of(e):
             if c[1] and len(c[3]) >= 2 and c[3][0][0] is None and c[3][0][1] == 0 and not any(a[0] == "protocol" for a in c[3]):
                 return KF_SSL
-    if nested_selected(e) and codemod in ("requests-verify", "harden-ruamel", "enable-jinja2-autoescape",
-                                         "safe-lxml-parser-defaults", "safe-lxml-parsing", "secure-flask-cookie",
-                                         "upgrade-sslcontext-tls", "sandbox-process-creation", "subprocess-shell-false",
-                                         "fix-math-isclose", "timezone-aware-datetime"):
-        return KF_NESTED
+    if nested_ok:
+        return f"{KF_NESTED}:{codemod}"
     return f"kf_none:{codemod}"
 
 
@@ -637,8 +651,10 @@ def kernel_transformers(ctx, per_codemod):
         kind = kind_for(cm, rows, tags)
         try:
             out, fc = run_transformer(classes[cm], src, selected)
-        except Exception as ex:  # the implementation raised: the file would be left untouched ("Failed to transform file")
+        except Exception as ex:  # the model (rw) never raises for these transformers: a raise is a model/implementation mismatch
             ctx.count(f"kernel.transformer_raised:{cm}:{type(ex).__name__}")
+            ctx.mismatch(f"{cm} transformer vs Model.Args.rw", f"transformer raised {type(ex).__name__}: {ex} on {src!r} (the model rewrites it)",
+                         {"op": "transformer", "codemod": cm, "source": src, "selected": sorted(selected)})
             continue
         before, after = stmt_values_cst(cst.parse_module(src)), stmt_values_cst(out)
         nchanges = len(fc.codemod_changes)
@@ -651,7 +667,9 @@ def kernel_transformers(ctx, per_codemod):
             ctx.case({"codemod": cm, "source": src}, nontrivial_key=("kt", cm, src, name) if nt else None, sample=nested_selected(e))
             ctx.count(f"kernel.transformer:{cm}")
             ctx.count("kernel.transformer.nested_selected:" + str(nested_selected(e)))
-    bad = core.eval_bad_indices(ctx, "c16_kt", IMPORTS, "tree_case", cases, ["tree_model_ok", "tree_spec_ok", "tree_delta_ok"])
+    bad = core.eval_bad_indices(ctx, "c16_kt", IMPORTS, "tree_case", cases,
+                                ["tree_model_ok", "tree_spec_ok", "tree_delta_ok", "as_written_ok", "nested_class_ok"])
+    not_aw, not_nested = set(bad["as_written_ok"]), set(bad["nested_class_ok"])
     for i in bad["tree_model_ok"]:
         m = meta[i]
         ctx.mismatch(f"{m['codemod']} transformer vs Model.Args.rw", f"transformer output differs from the model on {m['source']!r}",
@@ -659,8 +677,8 @@ def kernel_transformers(ctx, per_codemod):
     seen = set()
     for i in sorted(set(bad["tree_spec_ok"]) | set(bad["tree_delta_ok"])):
         m = meta[i]
-        cls = classify_tree(m["codemod"], m["tree"])
-        if m["codemod"] == "limit-readline" and cls.startswith("kf_none"):
+        cls = classify_tree(m["codemod"], m["tree"], i not in not_aw, i not in not_nested)
+        if m["codemod"] == "limit-readline" and cls.startswith("kf_none") and i not in not_aw:
             continue   # readline(n) is never reported by the detector (pattern `$SINK.readline()`); kernel-only deviation, see C16_limit_readline_overwrites
         if (cls, m["codemod"]) in seen:
             continue
@@ -717,6 +735,76 @@ def load_corpus():
         c["selected"] = {tuple(x) for x in c["selected"]}
         out.append(c)
     return out
+
+
+def ast_call_positions(node):
+    """(line, column) of every call, in the order of calls_of(ast_conv(node))"""
+    out = []
+
+    def go(n):
+        if isinstance(n, ast.Attribute):
+            go(n.value)
+        elif isinstance(n, ast.Call):
+            out.append((n.lineno, n.col_offset))
+            go(n.func)
+            for a in sorted(list(n.args) + list(n.keywords), key=lambda a: (a.lineno, a.col_offset)):
+                go(a.value if isinstance(a, (ast.Starred, ast.keyword)) else a)
+    go(node)
+    return out
+
+
+def remark(e, flags):
+    """the tree with the marks of its calls (order of calls_of) replaced by `flags`"""
+    it = iter(flags)
+
+    def go(x):
+        if x[0] == "a":
+            return ("a", go(x[1]), x[2])
+        if x[0] == "call":
+            mk = next(it)
+            f = go(x[2])
+            return ("call", mk, f, [(a[0], a[1], a[2], a[3], go(a[4])) for a in x[3]])
+        return x
+    return go(e)
+
+
+def marks_from_report(stmts, positions, got_lines, trigger_callee):
+    """Reconcile the generator's intent with the tool's own account (CodeTF change lines): which calls did the tool select?
+    Returns (stmts with marks, adjusted?) or None when the report cannot be attributed to calls unambiguously."""
+    flat = []   # (stmt index, call index, line, predicted mark, callee is the trigger spelling)
+    for si, ((name, e), pos) in enumerate(zip(stmts, positions)):
+        cs = calls_of(e)
+        if len(cs) != len(pos):
+            return None
+        for ci, (c, (ln, _)) in enumerate(zip(cs, pos)):
+            flat.append([si, ci, ln, bool(c[1]), erase(c[2]) == trigger_callee])
+    lines = {}
+    for row in flat:
+        lines.setdefault(row[2], []).append(row)
+    if any(ln not in lines for ln in got_lines):
+        return None
+    adjusted = False
+    for ln, rows in lines.items():
+        k, p = got_lines.count(ln), sum(1 for r in rows if r[3])
+        if k == p:
+            continue
+        adjusted = True
+        trig = [r for r in rows if r[4]]
+        if k == len(rows):
+            for r in rows:
+                r[3] = True
+        elif k == 0:
+            for r in rows:
+                r[3] = False
+        elif k == len(trig):
+            for r in rows:
+                r[3] = r[4]
+        else:
+            return None
+    out = []
+    for si, (name, e) in enumerate(stmts):
+        out.append((name, remark(e, [r[3] for r in flat if r[0] == si])))
+    return out, adjusted
 
 
 def ast_value(text):
@@ -784,7 +872,7 @@ E2E = {
         imports_removed=["import requests"], semgrep=True, first_pos=lambda r: ("n", r.choice(["url", "target"]))),
     "harden-pyyaml": dict(
         variants=[("import yaml\n", "yaml.load")], must=lambda r: [], forbid=(), nontrigger_must=None, nest_attr="x", imports_added=["import yaml"],
-        semgrep=True, only_must=True, marks_from_report=True,
+        semgrep=True, only_must=True,
         extra_shapes=lambda r: r.choice([
             [dict(kw=None, star=0, eq="", comma="", value=("n", "data"))],
             [dict(kw=None, star=0, eq="", comma=", ", value=("n", "data")), dict(kw=None, star=0, eq="", comma="", value=g_name("yaml.Loader"))],
@@ -969,10 +1057,17 @@ def e2e(ctx, codemods, nfiles, tag="a"):
             for cs in res.get("changeset", []):
                 changes[cs["path"]] = sorted(c["lineNumber"] for c in cs["changes"])
         spec = E2E[cm]
+        failed = {Path(f).name for res in rep.get("results", []) for f in (res.get("failedFiles") or [])}
         for rel, before in files.items():
             after = (root / rel).read_text()
             m = metas[rel]
             ctx.count(f"e2e.files:{cm}")
+            if rel in failed and cm != "jwt-decode-verify":
+                # the tool could not transform the file (an exception in the transformer): the model predicts no raise here
+                ctx.count(f"e2e.failed_file:{cm}")
+                ctx.mismatch(f"{cm} end to end vs Model.Args.rw", f"{rel} is listed under failedFiles (the transformer raised); the model rewrites it",
+                             {"op": "e2e", "codemod": cm, "project": core.b64tree({rel: before}), "after": after})
+                continue
             if isinstance(m, tuple) and m[0] == "corpus":
                 c = m[1]
                 stmts = [(st.targets[0].id, ast_conv(st.value, c["selected"])) for st in ast.parse(before).body
@@ -986,6 +1081,10 @@ def e2e(ctx, codemods, nfiles, tag="a"):
                 stmts = [(name, apply_marks(ast_conv(bvals[name]), g)) for name, g in gstmts]
                 pred_lines = sorted(offset_to_pos(text, off)[0] for off, mk in calls if mk)
             got_lines = changes.get(rel, [])
+            if cm == "jwt-decode-verify" and rel in failed and not c16_jwt.file_raises(stmts):
+                ctx.mismatch("jwt-decode-verify end to end vs Model.JwtOpts", f"{rel} is listed under failedFiles but no selected call has a `**spread` options entry",
+                             {"op": "e2e", "codemod": cm, "project": core.b64tree({rel: before}), "after": after})
+                continue
             if cm == "jwt-decode-verify" and c16_jwt.file_raises(stmts) and after == before and not got_lines:
                 # a `**spread` entry in the options dict of a selected call: the transformer raises, the file is left untouched
                 ctx.count("e2e.jwt.raised_file_untouched")
@@ -996,22 +1095,25 @@ def e2e(ctx, codemods, nfiles, tag="a"):
                         jmeta.append({"codemod": cm, "file": rel, "stmt": name, "before": before, "after": after})
                         ctx.case({"codemod": cm, "file": rel, "stmt": name}, nontrivial_key=("e2e-jwt-raise", before, name))
                 continue
-            if pred_lines != got_lines and spec.get("marks_from_report") and set(got_lines) <= set(pred_lines) \
-                    and len(set(got_lines)) == len(got_lines) and gstmts and not any(nested_selected(e) for _, e in stmts):
-                # the detector's verdict depends on the rest of the file (harden-pyyaml's pattern-inside): take it from the report
-                def keep(e, line):
-                    return e if line in got_lines else ("call", False) + tuple(e[2:])
-                lines = {name: offset_to_pos(text, off)[0] for (name, g), (off, mk) in zip(gstmts, [c for c in calls if c[1]])} \
-                    if len([c for c in calls if c[1]]) == len(gstmts) else None
-                if lines is not None:
-                    stmts = [(name, keep(e, lines[name])) for name, e in stmts]
-                    pred_lines = got_lines
-                    ctx.count(f"e2e.marks_from_report:{cm}")
             if pred_lines != got_lines:
-                # the detector selected other calls than the generator intended: not judged (the verdict of the detector is an input)
-                ctx.count(f"e2e.detector_prediction_miss:{cm}")
-                ctx.notes.append(f"{cm}/{rel}: generator expected changes on lines {pred_lines}, report lists {got_lines}") if len(ctx.notes) < 12 else None
-                continue
+                # the tool selected other calls than the generator intended.  The detector's verdict is an input of the model, so the
+                # marks are taken from the tool's own account (the report) and the file IS judged: a call the tool changed without
+                # reporting it, or changed beyond the documented edit, then shows up as a spec violation ("and nothing else").
+                bnodes = {st.targets[0].id: st.value for st in ast.parse(before).body
+                          if isinstance(st, ast.Assign) and isinstance(st.targets[0], ast.Name)}
+                rec = marks_from_report(stmts, [ast_call_positions(bnodes[name]) for name, _ in stmts], got_lines,
+                                        erase(ast_conv(ast.parse(callee, mode="eval").body)) if callee else None)
+                if rec is None:
+                    ctx.count(f"e2e.report_not_attributable:{cm}")
+                    ctx.mismatch(f"{cm} end to end: report vs generated calls",
+                                 f"{rel}: generator expected changes on lines {pred_lines}, report lists {got_lines}; the reported lines cannot "
+                                 f"be attributed to calls unambiguously, so the file cannot be judged (coverage lost)",
+                                 {"op": "e2e", "codemod": cm, "project": core.b64tree({rel: before}), "after": after})
+                    continue
+                stmts, adjusted = rec
+                ctx.count(f"e2e.marks_from_report:{cm}")
+                if len(ctx.notes) < 12:
+                    ctx.notes.append(f"{cm}/{rel}: generator expected changes on lines {pred_lines}, report lists {got_lines}: marks taken from the report")
             try:
                 aimports, avals, aothers = split_module(after)
             except SyntaxError as ex:
@@ -1051,6 +1153,10 @@ def e2e(ctx, codemods, nfiles, tag="a"):
                 ctx.count(f"e2e.calls:{cm}:" + ("selected" if has_marked(e) else "not-selected"))
                 if nested_selected(e):
                     ctx.count(f"e2e.nested_selected:{cm}")
+    for cm in codemods:
+        if not any(k.startswith(f"e2e.calls:{cm}:selected") for k in ctx.dist) and not ctx.dist.get("e2e.jwt.raised_file_untouched" if cm == "jwt-decode-verify" else "-"):
+            ctx.mismatch(f"{cm} end to end: coverage", f"no selected call of {cm} was judged in this run (detector stopped matching the generated triggers, "
+                         f"or every file was skipped)", {"op": "e2e-coverage", "codemod": cm})
     if jcases:
         jbad = core.eval_bad_indices(ctx, "c16_e2ej", IMPORTS, "jwt_case", jcases, ["jwt_ast_model_ok", "jwt_spec_ok"])
         for i in jbad["jwt_ast_model_ok"]:
@@ -1062,7 +1168,9 @@ def e2e(ctx, codemods, nfiles, tag="a"):
             ctx.violation(c16_jwt.KF_JWT, f"jwt-decode-verify: entries of the options dict of {m['file']}:{m['stmt']} were not preserved",
                           {"op": "e2e", "codemod": m["codemod"], "project": core.b64tree({m["file"]: m["before"]}), "after": m["after"], "stmt": m["stmt"],
                            "expected": "Spec.JwtOptsSpec.spec_opts: only the verify_* values become True; every other entry, `**spread` included, is kept in order"})
-    bad = core.eval_bad_indices(ctx, "c16_e2e", IMPORTS, "tree_case", cases, ["ast_model_ok", "tree_spec_ok", "tree_delta_ok"])
+    bad = core.eval_bad_indices(ctx, "c16_e2e", IMPORTS, "tree_case", cases,
+                                ["ast_model_ok", "tree_spec_ok", "tree_delta_ok", "as_written_ok", "nested_class_ok"])
+    not_aw, not_nested = set(bad["as_written_ok"]), set(bad["nested_class_ok"])
     for i in bad["ast_model_ok"]:
         m = meta[i]
         ctx.mismatch(f"{m['codemod']} end to end vs Model.Args.rw", f"{m['file']}:{m['stmt']} differs from the model",
@@ -1070,14 +1178,14 @@ def e2e(ctx, codemods, nfiles, tag="a"):
     seen = set()
     for i in sorted(set(bad["tree_spec_ok"]) | set(bad["tree_delta_ok"])):
         m = meta[i]
-        cls = classify_tree(m["codemod"], m["tree"])
+        cls = classify_tree(m["codemod"], m["tree"], i not in not_aw, i not in not_nested)
         if (cls, m["codemod"]) in seen:
             continue
         seen.add((cls, m["codemod"]))
         ctx.violation(cls, f"{m['codemod']}: {m['file']}:{m['stmt']} is not the documented edit (arguments of a selected call lost, "
                            f"left unfixed, or tokens outside the documented delta)",
                       {"op": "e2e", "codemod": m["codemod"], "project": core.b64tree({m["file"]: m["before"]}), "after": m["after"], "stmt": m["stmt"],
-                       "expected": "Spec.ArgsSpec.rw_spec / C16_multiset_delta_tree"})
+                       "expected": "Spec.ArgsSpec.rw_spec / C16_multiset_delta_tree_partial"})
 
 
 # ------------------------------------------------------------------------------------------------
